@@ -12,6 +12,7 @@ Nothing here decides the property.  A run records, in one ordered event list,
     fmmu term n                the master's fmmu_used table of `term` now has n live entries
     frame                      a cyclic frame of the group went on the wire
     cancel                     the harness called task.cancel()
+    silent term                terminal `term` stops answering from now on
     done outcome               the task finished: "cancelled" | "returned" | "error:<Type>" | "hang"
     end groups prog child      the segment has come to rest; what is still held:
                                groups = the group is still in ec.sync_groups,
@@ -64,12 +65,15 @@ def run_loop(coro_fn, budget=200000):
 # configurations (JSON-serialisable; part of every case dict)
 
 def config(kind, nterm=3, rw=(True, True, False), init=(4, 4, 4), delay=0.0, al_lag=0,
-           fmmu=(True, True, True), cycletime=0.01):
+           fmmu=(True, True, True), cycletime=0.01, silent=None):
     """terminal i: rw[i] -> has outputs and the device writes them (the group asks it to go
     OPERATIONAL); init[i] = AL state before start; al_lag = number of status polls a requested
-    state change takes; delay = virtual seconds a frame takes round the segment"""
+    state change takes; delay = virtual seconds a frame takes round the segment;
+    silent = index of a terminal that stops answering (drops off the segment) at the moment of
+    the first cancel(), or None"""
     return dict(kind=kind, nterm=nterm, rw=list(rw[:nterm]), init=list(init[:nterm]),
-                delay=delay, al_lag=al_lag, fmmu=list(fmmu[:nterm]), cycletime=cycletime)
+                delay=delay, al_lag=al_lag, fmmu=list(fmmu[:nterm]), cycletime=cycletime,
+                silent=silent)
 
 
 class _LagPolicy:
@@ -113,12 +117,6 @@ def _build_segment(cfg, rec, E, ec):
         s = simbus.SimTerminal(f"S{i}", fmmus=4, station=100 + i)
         s.al_state = cfg["init"][i]
         s.al_policy = _LagPolicy(cfg["al_lag"])
-
-        def al(off, data, i=i):
-            if off == 0x120:
-                rec.add(t="al", term=i + 1, v=data[0] | (data[1] << 8 if len(data) > 1 else 0))
-            return False
-        s.add_handler(0x120, 0x122, None, al)
         sims.append(s)
         attrs = dict(pin=E.PacketDesc(SyncManager.IN, 0, "B"))
         if cfg["rw"][i]:
@@ -199,8 +197,9 @@ def run_async_kind(cfg, cancels, stop_frames=None, budget=40000, fake_kernel=Non
             info["kernel"] = not table.fake
             dev = _fast_device(E, objs, cfg)
             from . import progs
-            with progs.recording(use_kernel=not table.fake):
+            with progs.recording(use_kernel=not table.fake) as maps:
                 sg = E.FastSyncGroup(ec, [dev])
+            stack.callback(_close_group, sg, maps, not table.fake)
             if table.fake:
                 _fake_load(sg)
         else:
@@ -213,6 +212,11 @@ def run_async_kind(cfg, cancels, stop_frames=None, budget=40000, fake_kernel=Non
             if sg.task is not None and simbus.frame_index(frame) == getattr(sg, "packet_index", None):
                 rec.frames += 1
                 rec.add(t="frame")
+            # "asked" = the request went on the wire, whether or not the terminal still answers
+            for d in simbus.parse_frame(frame)["dgrams"]:
+                if d["cmd"] == simbus.FPWR and d["ado"] == 0x120 and len(d["data"]) >= 2 \
+                        and 100 <= d["adp"] < 100 + cfg["nterm"]:
+                    rec.add(t="al", term=d["adp"] - 99, v=d["data"][0] | d["data"][1] << 8)
             return [("return", cfg["delay"])]
 
         saved = E.monotonic
@@ -238,6 +242,9 @@ def run_async_kind(cfg, cancels, stop_frames=None, budget=40000, fake_kernel=Non
                 hit = True
             if not cancels and not info["cancel_iters"] and rec.frames >= stop_frames:
                 hit = True
+            if hit and not info["cancel_iters"] and cfg.get("silent") is not None:
+                sims[cfg["silent"]].present = False
+                rec.add(t="silent", term=cfg["silent"] + 1)
             if hit:
                 rec.add(t="cancel", at=where(task), held=dict(
                     fm=list(rec.fm), prog=kind == "fast" and table.holds(sg)))
@@ -245,7 +252,14 @@ def run_async_kind(cfg, cancels, stop_frames=None, budget=40000, fake_kernel=Non
                 task.cancel()
 
         try:
-            state["task"] = task = sg.start()
+            try:
+                state["task"] = task = sg.start()
+            except Exception as e:            # the code under test could not even start
+                rec.add(t="start")
+                rec.add(t="done", outcome=f"error:{type(e).__name__}")
+                rec.add(t="end", groups=False, prog=False, child="none")
+                info["done_iter"] = 0
+                return
             state["base"] = loop.steps
             rec.add(t="start")
             loop.after = after
@@ -410,6 +424,29 @@ def _programs_table(E, ec, rec, fake_kernel):
         E.lookup_elem, E.update_elem, E.delete_elem = real
         if not fake and table.fd is not None:
             os.close(table.fd)
+
+
+def _close_group(sg, maps, kernel):
+    """what one FastSyncGroup object opened (map descriptors, their mmaps, a program descriptor
+    left open): thousands of runs per check must not run the process out of descriptors"""
+    for v in list(sg.__dict__.values()):
+        if hasattr(v, "close") and type(v).__name__ == "mmap":
+            try:
+                v.close()
+            except Exception:
+                pass
+    if kernel:
+        for m in maps:
+            try:
+                os.close(m["fd"])
+            except OSError:
+                pass
+        fd = getattr(sg, "file_descriptor", None)
+        if isinstance(fd, int) and fd > 2:
+            try:
+                os.close(fd)
+            except OSError:
+                pass
 
 
 def _fake_load(sg):
